@@ -361,9 +361,12 @@ func csrKey(i instruction) expr.Key {
 	return expr.Key(csr(csrNum).String())
 }
 
+// csrImmValue parses the 5 bit unsigned immediate of CSR immediate
+// instructions.
+func csrImmValue(i instruction) uint8 { return uint8((i.value >> 15) & 0x1f) }
+
 func csrImm(i instruction) expr.Const {
-	val := uint8((i.value >> 15) & 0x1f)
-	return expr.ConstFromUint(val)
+	return expr.ConstFromUint(csrImmValue(i))
 }
 
 var instructions = map[Variant]map[Extension][]*instructionType{
